@@ -23,6 +23,9 @@ pub enum TxT {
 	LockChangedResigned,  // control: still valid as a transaction
 	// ---- post assembly, nothing re-signed
 	OffsetChanged,
+	/// a zero offset replaced by 32 bytes that are no scalar (ff..ff >= the group order): the balance would
+	/// hold if such an offset were read as "none", so only a strict reading of the offset refuses it
+	OffsetNotAScalar,
 	DropKernel,
 	DupKernel,
 	ForeignKernel,
@@ -54,6 +57,7 @@ pub fn tx_catalogue() -> Vec<TxT> {
 		KindChangedResigned,
 		LockChangedResigned,
 		OffsetChanged,
+		OffsetNotAScalar,
 		DropKernel,
 		DupKernel,
 		ForeignKernel,
@@ -178,6 +182,14 @@ pub fn tamper_tx(spec: &TxSpec, t: TxT, pick: usize) -> Option<(Transaction, boo
 		OffsetChanged => {
 			let mut x = tx.clone();
 			x.offset = BlindingFactor::from_secret_key(scalar_from(format!("off{}", pick).as_bytes()));
+			Some((x, false))
+		}
+		OffsetNotAScalar => {
+			if tx.offset != BlindingFactor::zero() {
+				return None;
+			}
+			let mut x = tx.clone();
+			x.offset = BlindingFactor::from_slice(&[0xffu8; 32]);
 			Some((x, false))
 		}
 		DropKernel => {
@@ -327,6 +339,9 @@ pub enum BlockT {
 	/// only the range proof of the second coinbase output can refuse it
 	CoinbaseNegativeSplit,
 	KernelOffsetChanged,
+	/// the header's total kernel offset replaced by 32 bytes that are no scalar, in a block whose true total is
+	/// zero (everything balances if the claim is read as "none")
+	KernelOffsetNotAScalar,
 	/// a transaction of the block replaced by one creating value (signatures valid)
 	InflatingTx,
 	/// a transaction-level corruption (index into tx_catalogue) inside the block
@@ -376,6 +391,7 @@ pub fn block_catalogue() -> Vec<BlockT> {
 		CoinbaseProofScalarFlip,
 		CoinbaseNegativeSplit,
 		KernelOffsetChanged,
+		KernelOffsetNotAScalar,
 		InflatingTx,
 		OutputRoot,
 		RangeProofRoot,
@@ -579,6 +595,11 @@ pub fn tampered_block(
 			}
 			let i = pick % specs.len();
 			let tt = tx_catalogue()[ci as usize];
+			if tt == TxT::OffsetNotAScalar {
+				// a block has no per-transaction offsets: the builder folds them into the header's total, and the
+				// non-scalar one contributes nothing — the block would simply be valid (block-level: KernelOffsetNotAScalar)
+				return Ok(None);
+			}
 			match tamper_tx(&specs[i], tt, pick) {
 				Some((tx, v)) => {
 					// a control that stays valid as a transaction must also respect the
@@ -642,6 +663,16 @@ pub fn tampered_block(
 	if t == KernelOffsetChanged {
 		total_offset = BlindingFactor::from_secret_key(scalar_from(format!("blockoff{}", pick).as_bytes()));
 		stage = Stage::BodyValidation;
+	}
+	if t == KernelOffsetNotAScalar {
+		// only where the chain's running total is zero, so that "no offset" would balance
+		if total_offset != BlindingFactor::zero() || prev.total_kernel_offset != BlindingFactor::zero() {
+			return Ok(None);
+		}
+		total_offset = BlindingFactor::from_slice(&[0xffu8; 32]);
+		// the stateless Block::validate works on the difference to the previous total, computed leniently
+		// (measured, not asserted); the chain's own sum check must refuse the block
+		stage = Stage::Sums;
 	}
 	// header
 	let mut b = block_template(chain, prev, &[], cb_key, dt, mode)?;
